@@ -287,3 +287,12 @@ func staticUpTo(s Set, n int) bool {
 //@   loop 0 vars (nums []uint32, i int)
 //@   loop 0 invariant -1 <= i && i < len(s) && staticUpTo(s, i+1)
 //@   loop 0 decreases len(s) - i
+
+// Exported names of the specification functions, for the contracts of the
+// typed wrappers (imap.SeqSet, imap.UIDSet).
+
+//@ pure
+func Canon(s Set) bool { return canon(s) }
+
+//@ pure
+func InSet(s Set, q uint32) bool { return inSet(s, q) }
